@@ -47,6 +47,18 @@ CHECKS = {
              "error of exactly the Stack being built, outward frames must equal the fault-free run, the result must format. Plus "
              "non-stack objects as input." + HELD,
              "Trusted: interposition on three module-level names of stackscope._extract to know which Stack is being built; CPython 3.11/3.12 only."),
+    "C11": E("exploration", "5/C11",
+             "model-based property testing: generated wrapper chains with table-driven, logging hooks vs a reference loop; three invocation paths compared",
+             "Generated chains of synthetic and generator-based managers are filled through fill_context outside an extraction, "
+             "inside one, and through a real frame; the hook-invocation log and the final obj/hide/description/inner_stack/children "
+             "must equal a reference loop written from the documented rule; cycles must end in the 100-step error." + HELD,
+             "Trusted: the reference loop; contextlib glue's description text is not asserted."),
+    "C12": E("exploration", "5/C12",
+             "property-based testing (towers, nested names, registration sequences, IdentityDict op sequences vs identity-keyed model) + exhaustive enumeration of the 72 customize combinations",
+             "get_code through generated wrapper towers and nested-name paths is compared with the code object observed executing; "
+             "registration sequences over equal-but-distinct code objects are compared with an identity-keyed model; the full "
+             "customize option product is enumerated and observed on real frames; IdentityDict is driven against a reference." + HELD,
+             "Trusted: sys._getframe().f_code inside the base function as 'the code that runs'."),
     "C13": E("exploration", "5/C13",
              "property-based testing: generated nested call trees of extract/extract_outermost/extract_child/fill_context with per-level options, single-threaded and under generated cooperative schedules of 2-4 threads",
              "Options in force are observed through public behaviour at every hook entry and after every child returns or raises, "
